@@ -219,6 +219,111 @@ func checkC08(c *Ctx, r *Report) {
 	}
 	r.Floor("C08.R2", nDo, 1, "upstream send sites")
 
+	// ---- R6: the client that talks to the origin does not rewrite the exchange on its own: it neither follows
+	// redirects (the origin's 3xx, Location and body would be replaced by the target's answer, which is then
+	// stored under the wrong key) nor asks for / undoes gzip (the body would no longer be the one the origin's
+	// ETag, Content-Length and Content-Encoding describe)
+	for _, f := range c.FuncsNamed(proxyPkg + ".sendRequestToTarget") {
+		eachCall(f, func(call ssa.CallInstruction, n string) {
+			if n != "(*net/http.Client).Do" {
+				return
+			}
+			recv := resolveVal(callArgs(call.(*ssa.Call))[0])
+			// which client object?
+			var clientGlobal *ssa.Global
+			if u, ok := recv.(*ssa.UnOp); ok && u.Op == token.MUL {
+				clientGlobal, _ = u.X.(*ssa.Global)
+			}
+			if g, ok := recv.(*ssa.Global); ok {
+				clientGlobal = g
+			}
+			noRedirect, transportSet := false, false
+			where := "?"
+			if clientGlobal != nil {
+				where = clientGlobal.Pkg.Pkg.Path() + "." + clientGlobal.Name()
+			}
+			if clientGlobal != nil && isModPath(clientGlobal.Pkg.Pkg.Path()) {
+				// initialised in the package initialiser: stores into the fields of the object the global points to
+				if initFn := clientGlobal.Pkg.Func("init"); initFn != nil {
+					eachInstr(initFn, func(in ssa.Instruction) {
+						st, ok := in.(*ssa.Store)
+						if !ok {
+							return
+						}
+						fv, base, is := fieldOf(st.Addr)
+						if !is || structName(base.Type()) != "net/http.Client" {
+							return
+						}
+						// the object written is the one the global holds
+						holds := false
+						eachInstr(initFn, func(i3 ssa.Instruction) { // (globals keep no referrer lists)
+							if gs, ok := i3.(*ssa.Store); ok && gs.Addr == ssa.Value(clientGlobal) {
+								if sameVal(gs.Val, base) || resolveVal(gs.Val) == resolveVal(base) {
+									holds = true
+								}
+							}
+						})
+						if !holds && resolveVal(base) != ssa.Value(clientGlobal) {
+							return
+						}
+						switch fv.Name() {
+						case "CheckRedirect":
+							if fn := closureFn(st.Val); fn != nil {
+								all, nret := true, 0
+								eachInstr(fn, func(i2 ssa.Instruction) {
+									if ret, ok := i2.(*ssa.Return); ok {
+										nret++
+										u, isU := ret.Results[0].(*ssa.UnOp)
+										gl, isG := ssa.Value(nil), false
+										if isU {
+											gl, isG = u.X.(*ssa.Global)
+										}
+										if !isU || !isG || gl.(*ssa.Global).Name() != "ErrUseLastResponse" {
+											all = false
+										}
+									}
+								})
+								noRedirect = all && nret > 0
+							}
+						case "Transport":
+							transportSet = true
+						}
+					})
+				}
+			}
+			r.Check(noRedirect, "C08.R6", "the upstream client does not follow redirects", c.InstrPos(call), where+".CheckRedirect always returns http.ErrUseLastResponse", "upstream requests are sent with "+where+", which follows 3xx answers itself: the client receives the redirect target's status and body instead of the origin's 3xx + Location, and that body is stored under the key of the redirecting URL")
+			// transparent compression off on the transport in use
+			noGzip := false
+			for _, g := range li.Fns {
+				if !isModPath(originPkgPath(g)) || strings.HasPrefix(originPkgPath(g), "reservoir/tests") {
+					continue
+				}
+				eachInstr(g, func(in ssa.Instruction) {
+					st, ok := in.(*ssa.Store)
+					if !ok {
+						return
+					}
+					fv, base, is := fieldOf(st.Addr)
+					if !is || fv.Name() != "DisableCompression" || structName(base.Type()) != "net/http.Transport" {
+						return
+					}
+					if b, isC := constBool(st.Val); !isC || !b {
+						return
+					}
+					// on the default transport (used when the client's Transport is nil) or on the client's own
+					onDefault := derivesFrom(base, func(v ssa.Value) bool {
+						gl, ok := v.(*ssa.Global)
+						return ok && gl.Name() == "DefaultTransport"
+					})
+					if (onDefault && !transportSet) || (!onDefault && transportSet) {
+						noGzip = true
+					}
+				})
+			}
+			r.Check(noGzip, "C08.R6", "the upstream transport does not add or undo gzip", c.InstrPos(call), "Transport.DisableCompression = true on the transport in use", "the upstream transport has transparent compression on: for a client that sent no Accept-Encoding it asks the origin for gzip, decodes the body and drops Content-Encoding / Content-Length — the delivered and stored body is not the one the origin's ETag and length describe")
+		})
+	}
+
 	// ---- R3
 	impls := responderImpls(c)
 	forms := setHeadersForms(c, li, r, "C08.R3")
